@@ -45,6 +45,24 @@ impl Prop for C11 {
     fn id(&self) -> &'static str {
         "C11"
     }
+    fn aggregate(&self, counters: &std::collections::BTreeMap<String, u64>) -> Vec<crate::prop::Violation> {
+        // the known finding `search-choice-depends-on-width` occurs in about 1 of 20 000 fitting
+        // pairs on the unchanged tree; a rate above 0.5 % means the width has become a style switch
+        let n = counters.get("fits_but_differs_both_fit").copied().unwrap_or(0);
+        let pairs = counters.get("pairs_where_wider_result_fits_narrower").copied().unwrap_or(0);
+        if pairs >= 200 && n * 200 > pairs {
+            return vec![crate::prop::Violation {
+                property: "C11".into(),
+                class: "fits-but-differs-rate".into(),
+                detail: format!("{n} of {pairs} width pairs whose wider result fits the narrower width gave a different narrower result (calibrated rate on the unchanged tree: < 0.01 %, limit 0.5 %)"),
+                input: String::new(),
+                cfg: None,
+                extra: serde_json::Value::Null,
+                case_index: 0,
+            }];
+        }
+        vec![]
+    }
     fn cases(&self, ctx: &Ctx) -> u64 {
         ctx.tier.pick(1500, 40_000)
     }
@@ -94,7 +112,20 @@ impl Prop for C11 {
                 if max2 <= w1 {
                     out.count("pairs_where_wider_result_fits_narrower");
                     if f1 != f2 {
-                        out.violate("C11", cls("fits-but-differs"), format!("{} [{}] result at wrap_column {w2} has widest line {max2} <= {w1}, but the result at {w1} differs", w.name, base.short()), &w.text, Some(&c1));
+                        let reflow_cache = ob1.reflow_cache_hit() || ob2.reflow_cache_hit();
+                        // both results fit the narrower width: the heuristic search made a different
+                        // (equally fitting) choice; rare on the unchanged tree, judged by its rate
+                        let class = if fallback {
+                            "wrap-fallback"
+                        } else if reflow_cache && w.text.contains("'''") {
+                            "reflow-child-cache"
+                        } else if max1 <= w1 {
+                            out.count("fits_but_differs_both_fit");
+                            "search-choice-depends-on-width"
+                        } else {
+                            "fits-but-differs"
+                        };
+                        out.violate("C11", class, format!("{} [{}] result at wrap_column {w2} has widest line {max2} <= {w1}, but the result at {w1} differs", w.name, base.short()), &w.text, Some(&c1));
                     }
                 }
                 // (b)
